@@ -124,6 +124,19 @@ def units_part(res, dims, si, rng, tier):
         sim.add(m=1.0)
         sim.add(m=1e-3, a=1.3, e=0.2, f=0.4, inc=0.3)
         P_a = sim.particles[1].P * sa[1]
+        # the same orbit specified through its time of pericentre passage (computed here from the mean anomaly and this unit system's G)
+        # is the same particle, whatever G is
+        p1 = sim.particles[1]
+        o1 = p1.orbit(primary=sim.particles[0])
+        nmean = math.sqrt(sim.G * (1.0 + 1e-3) / 1.3 ** 3)
+        for tnow in (0.0, 0.37 * o1.P):
+            sim.t = tnow
+            pT = rebound.Particle(simulation=sim, primary=sim.particles[0], m=1e-3, a=1.3, e=0.2, inc=0.3, T=tnow - o1.M / nmean)
+            res["unit_checks"] += 1
+            if any(not abs(u - w) <= 1e-9 * 1.3 for u, w in ((pT.x, p1.x), (pT.y, p1.y), (pT.z, p1.z))) or not abs(pT.vx - p1.vx) <= 1e-9 * abs(nmean * 1.3):
+                viol(res, "unit-constructor-T", units=a, G=sim.G, t=tnow, from_T=(pT.x, pT.y, pT.z, pT.vx), from_f=(p1.x, p1.y, p1.z, p1.vx))
+                break
+        sim.t = 0.0
         ref = [(p.x, p.vx, p.m, p.y) for p in sim.particles]
         s2 = sim.copy()
         sim.convert_particle_units(*b)
@@ -311,22 +324,27 @@ def frame_part(res, rng, tier):
         for i in range(n):
             p = s2.particles[i]
             s3.add(m=p.m, x=p.x + 1.0, y=p.y, z=p.z - 2.0, vx=p.vx, vy=p.vy + 0.5, vz=p.vz)
-        var = s3.add_variation()
-        for i in range(n):
-            var.particles[i].x = float(rng.randrange(-3, 4))
-            var.particles[i].vy = float(rng.randrange(-3, 4))
-            var.particles[i].m = float(rng.randrange(0, 2))
+        # (several independent first-order sets: each is shifted by its own dR)
+        vars_ = [s3.add_variation() for _ in range(3)]
+        for var in vars_:
+            for i in range(n):
+                var.particles[i].x = float(rng.randrange(-3, 4))
+                var.particles[i].vy = float(rng.randrange(-3, 4))
+                var.particles[i].m = float(rng.randrange(0, 2))
         M = sum(p.m for p in s3.particles[:n])
         R = sum(p.m * p.x for p in s3.particles[:n]) / M
         Vy = sum(p.m * p.vy for p in s3.particles[:n]) / M
-        dM = sum(var.particles[i].m for i in range(n))
-        dR = sum(s3.particles[i].m * var.particles[i].x + var.particles[i].m * (s3.particles[i].x - R) for i in range(n)) / M
-        dVy = sum(s3.particles[i].m * var.particles[i].vy + var.particles[i].m * (s3.particles[i].vy - Vy) for i in range(n)) / M
-        want = [(var.particles[i].x - dR, var.particles[i].vy - dVy) for i in range(n)]
+        wants = []
+        for var in vars_:
+            dR = sum(s3.particles[i].m * var.particles[i].x + var.particles[i].m * (s3.particles[i].x - R) for i in range(n)) / M
+            dVy = sum(s3.particles[i].m * var.particles[i].vy + var.particles[i].m * (s3.particles[i].vy - Vy) for i in range(n)) / M
+            wants.append([(var.particles[i].x - dR, var.particles[i].vy - dVy) for i in range(n)])
         s3.move_to_com()
-        got = [(var.particles[i].x, var.particles[i].vy) for i in range(n)]
-        if any(abs(a - b) > 1e-13 * max(1.0, abs(b)) for g, w in zip(got, want) for a, b in zip(g, w)):
-            viol(res, "move-to-com-variational", got=got, want=want)
+        for k, (var, want) in enumerate(zip(vars_, wants)):
+            got = [(var.particles[i].x, var.particles[i].vy) for i in range(n)]
+            if any(abs(a - b) > 1e-13 * max(1.0, abs(b)) for g, w in zip(got, want) for a, b in zip(g, w)):
+                viol(res, "move-to-com-variational", variational_set=k, got=got, want=want)
+                break
 
 
 def main():
